@@ -40,9 +40,26 @@ def replay(pid, path):
     mod = load_prop(pid)
     v = json.load(open(path))
     rec = core.set_current(core.Rec(pid, v.get("tier", "quick"), v.get("seed", 0), 0, 1))
-    if v.get("case") is None or not hasattr(mod, "replay"):
-        print("replay: no replayable case recorded for this violation")
-        return 2
+    if v.get("case") is None or not hasattr(mod, "replay") or getattr(mod, "REPLAY_BY_SHARD", False):
+        # deterministic re-run of the shard that produced the violation (same seed, same tier)
+        shard = v.get("shard", 0)
+        if shard is None or shard < 0:
+            print("replay: this violation was found by the offline checker over all shards; re-run ./check %s with VERIF_SEED=%s" % (pid, v.get("seed", 0)))
+            return 2
+        tier = v.get("tier", "quick")
+        rec = core.set_current(core.Rec(pid, tier, v.get("seed", 0), shard, mod.shards(tier)))
+        from .monitors.install import import_all
+        import_all()
+        print("replay: re-running shard %d of %s (tier %s, seed %s)" % (shard, pid, tier, v.get("seed", 0)))
+        mod.run(rec)
+        same = [x for x in rec.violations if x["monitor"] == v.get("monitor")]
+        if same:
+            for x in same[:3]:
+                print("  %s [%s] %s" % (x["monitor"], x["class"], x["what"][:400]))
+            print("VIOLATION property=%s replay=%s" % (pid, path))
+            return 1
+        print("replay: property %s held on the re-run shard (%d oracle evaluations)" % (pid, rec.evals))
+        return 0 if rec.evals else 2
     mod.replay(rec, core.from_full_json(v["case"]))
     if rec.violation_count:
         for x in rec.violations[:3]:
